@@ -21,10 +21,10 @@ type Op struct {
 	Prefixed  bool
 	Mnemonic  string
 	Undefined bool
-	Cycles    int    // machine cycles (taken)
-	NotTaken  int    // machine cycles when the condition fails (0 = unconditional)
-	Cond      string // "", NZ, Z, NC, C
-	Flags     [4]byte // Z N H C: '-' untouched, '0', '1', '*' computed
+	Cycles    int      // machine cycles (taken)
+	NotTaken  int      // machine cycles when the condition fails (0 = unconditional)
+	Cond      string   // "", NZ, Z, NC, C
+	Flags     [4]byte  // Z N H C: '-' untouched, '0', '1', '*' computed
 	Out       []string // architectural state written besides flags: a b c d e h l sp pc ime halted haltbug stopped
 	// In lists, per output (register name, "f" for the computed flags, "mem" for a
 	// stored byte, "pc"), the architectural inputs it depends on. Flags as
